@@ -613,7 +613,7 @@ fn wide_frame<F: GenFam>(rng: &mut Rng, b: &mut Budget, i: usize) -> Vec<u8> {
     let mut v = enc::<F>(&p).1.unwrap_or_default();
     if i % 7 == 0 {
         // a PUBLISH whose length field takes 2 or 3 bytes
-        let n = *rng.pick(&[128usize, 129, 300, 16383, 16384, 20000]);
+        let n = *rng.pick(&[128usize, 129, 300, 16383, 16384, 20000, 65536, 65537, 70001]);
         let mut body = vec![0u8, 1, b'a'];
         if F::NAME == "v5" {
             body.push(0);
